@@ -77,6 +77,27 @@ pub fn run(out: &mut Out, seed: u64, thorough: bool) {
         }
         run_line(out, &mut s, "d");
     }
+    // 3b. comparator thresholds: inputs exactly at, just below and just above every DAC voltage
+    //     (both orders of applying input and DAC byte, all three analog inputs)
+    for b in 0..=255u32 {
+        let v = ((b as u8) as f32 / 100.0).to_bits();
+        for delta in [-2i64, -1, 0, 1, 2].iter() {
+            let x = (v as i64 + delta).max(0) as u32;
+            for (kind, port) in [("ai1", 0), ("ai2", 1), ("temp", 1)].iter() {
+                let mut s = Sess::new();
+                run_line(out, &mut s, "new");
+                run_line(out, &mut s, &format!("spec.bw 2 {}", 0xC0 | if *port == 0 { 4 } else { 5 } | if b % 2 == 0 { 8 } else { 0 }));
+                run_line(out, &mut s, &format!("spec.bw {} {}", port, b));
+                run_line(out, &mut s, &format!("spec.bset {} {}", kind, x));
+                run_line(out, &mut s, "spec.bd");
+                run_line(out, &mut s, &format!("spec.bw {} {}", port, (b + 1) % 256));
+                run_line(out, &mut s, "spec.bd");
+                run_line(out, &mut s, &format!("spec.bw {} {}", port, b));
+                run_line(out, &mut s, "spec.bd");
+                out.count("threshold");
+            }
+        }
+    }
     // 4. every byte value on every port from a non-trivial state
     for port in 0..4 {
         for v in 0..=255u32 {
